@@ -5,6 +5,8 @@ import (
 	"go/ast"
 	"go/token"
 	"go/types"
+	"math"
+	"math/big"
 	"strings"
 
 	"verif/wscheck/internal/fold"
@@ -99,8 +101,49 @@ func asciiToIntRules(c *Ctx, prop string) {
 			}
 		}
 	}
+	// long tokens around the overflow boundaries: a value that does not fit an int is an error,
+	// also when the wrapped result happens to be a small positive number
+	long := []string{"0", "00000000000000000000001", "2147483647", "2147483648", "4294967295", "4294967296", "4294967297", "42949672960", "42949672961",
+		"9223372036854775807", "9223372036854775808", "9223372036854775809", "18446744073709551615", "18446744073709551616",
+		"18446744073709551617", "36893488147419103233", "99999999999999999999", "184467440737095516160", "184467440737095516161"}
+	maxInt := new(big.Int).SetInt64(math.MaxInt64)
+	if fold.IntSize == 32 {
+		maxInt.SetInt64(math.MaxInt32)
+	}
+	for _, tok := range long {
+		tok := tok
+		ps := m.Explore(f, func(mm *fold.Machine) []fold.Val {
+			el := make([]fold.Val, len(tok))
+			for i := range el {
+				el[i] = fold.K(int64(tok[i]))
+			}
+			return []fold.Val{mm.NewBytes("tok", el)}
+		}, nil)
+		total += len(ps)
+		want, _ := new(big.Int).SetString(tok, 10)
+		fits := want.Cmp(maxInt) <= 0
+		for _, p := range ps {
+			if p.Abort != "" || p.Panic {
+				problems = append(problems, "undecided: token "+tok+": "+p.Abort+panicNote(p))
+				continue
+			}
+			ret, _ := p.Ret.(fold.Tuple)
+			if len(ret) != 2 {
+				continue
+			}
+			ok := c.errName(ret[1]) == "nil"
+			switch {
+			case ok && !fits:
+				problems = append(problems, fmt.Sprintf("token %s does not fit an int but is accepted as %s (wrap-around)", tok, fold.Show(ret[0])))
+			case !ok && fits:
+				problems = append(problems, "token "+tok+" fits an int but is refused")
+			case ok && fold.Show(ret[0]) != want.String():
+				problems = append(problems, fmt.Sprintf("token %s parsed as %s", tok, fold.Show(ret[0])))
+			}
+		}
+	}
 	c.R.AddCells(total)
-	c.verdict(rule, rule+"/asciiToInt", c.P.FuncPos(f), uniq(problems), fmt.Sprintf("%d token cells of 1-4 bytes", total))
+	c.verdict(rule, rule+"/asciiToInt", c.P.FuncPos(f), uniq(problems), fmt.Sprintf("%d token cells of 1-4 bytes and %d long tokens around the overflow boundaries", total, len(long)))
 }
 
 // statusLineRules: the status code accepted as 101 is literally "101".
